@@ -82,10 +82,14 @@ func setNextIndex(q *circularQueue.CircularQueue, v int) bool {
 	return true
 }
 
-// qmsg: a message with every field set (a queue of messages holds messages, not just their numbers)
+// qmsg: a message with every field set (a queue of messages holds messages, not just their numbers).  The number of
+// the addition is carried by RawData, Timestamp and the texts; the message TYPE is what the proxy really queues: runs of
+// other data (-1) between RTCM messages of the usual types, so consecutive additions often have the same type
+var qTypes = []int{-1, -1, 1005, -1, -1, -1, 1077, 1074, -1, 1230, 1077, 1077, -1, -1, 4072, 1006}
+
 func qmsg(id int) handler.Message {
 	lv := []slog.Level{slog.LevelDebug, slog.LevelInfo, slog.LevelWarn}[id%3]
-	return handler.Message{MessageType: id, RawData: []byte{byte(id >> 24), byte(id >> 16), byte(id >> 8), byte(id)},
+	return handler.Message{MessageType: qTypes[id%len(qTypes)], RawData: []byte{byte(id >> 24), byte(id >> 16), byte(id >> 8), byte(id)},
 		Timestamp: uint(id)*7 + 1, SentAt: fmt.Sprint("Time ", id), StartOfWeek: fmt.Sprint("Start of week ", id),
 		ErrorMessage: []string{"", "e"}[id%2], LogLevel: lv, Readable: fmt.Sprint("readable ", id)}
 }
@@ -95,9 +99,13 @@ func qmsg(id int) handler.Message {
 func ids(ms []handler.Message) []int {
 	r := make([]int, len(ms))
 	for i, m := range ms {
-		r[i] = m.MessageType
-		if !reflect.DeepEqual(m, qmsg(m.MessageType)) {
-			r[i] = -m.MessageType - 1000000000
+		id := -7
+		if len(m.RawData) >= 4 {
+			id = int(m.RawData[0])<<24 | int(m.RawData[1])<<16 | int(m.RawData[2])<<8 | int(m.RawData[3])
+		}
+		r[i] = id
+		if id < 0 || !reflect.DeepEqual(m, qmsg(id)) {
+			r[i] = -id - 1000000000
 		}
 	}
 	return r
